@@ -268,10 +268,16 @@ def rule_caller_data(model):
     return r
 
 
-def rule_defaults(model):
-    r = RuleResult('C17.R6', 'mutable default arguments are never mutated')
+def rule_defaults(model, rule_id='C17.R6', select=None, floor=10):
+    r = RuleResult(rule_id, 'mutable default arguments (one object for the '
+                   'life of the module) are never mutated and never handed '
+                   'out (returned / stored)')
     n = 0
     for fi in model.all_funcs():
+        if select is not None and not select(fi):
+            continue
+        if select is not None:
+            r.instance(fi.where, 'def ' + fi.name, 'scanned')
         a = fi.node.args
         pos = a.posonlyargs + a.args
         for p, d in list(zip(pos[len(pos) - len(a.defaults):], a.defaults)) \
@@ -301,15 +307,61 @@ def rule_defaults(model):
                             'clear', 'extend', 'insert', 'remove',
                             'popitem'):
                     muts.append(x)
+            escapes = _default_escapes(fi, name)
             r.instance(fi.where, f'{name}={norm(d)}',
-                       f'{len(muts)} mutation(s)')
+                       f'{len(muts)} mutation(s), {len(escapes)} escape(s)')
             for m in muts:
                 if not rebound:
                     r.finding(fi.where, m, f'the mutable default of '
                               f'`{name}` is modified: the change persists '
                               'across calls', node=m, ctx=fi)
-    r.require_floor(10)
+            for e in escapes:
+                if not rebound:
+                    r.finding(fi.where, e, f'the mutable default of '
+                              f'`{name}` (one object for the life of the '
+                              'module) is handed out: it is returned or '
+                              'stored, so whoever updates the result in '
+                              'place changes what every later call gets',
+                              node=e, ctx=fi)
+    r.require_floor(floor)
     return r
+
+
+def _contains_name(e, name):
+    """Is local `name` itself (not a value computed from it) an element of
+    expression e: e is the name, or a list / tuple / dict / set display
+    (nested) one of whose elements is."""
+    if isinstance(e, ast.Name):
+        return e.id == name
+    if isinstance(e, (ast.List, ast.Tuple, ast.Set)):
+        return any(_contains_name(x, name) for x in e.elts)
+    if isinstance(e, ast.Dict):
+        return any(_contains_name(x, name) for x in e.values if x)
+    if isinstance(e, ast.IfExp):
+        return _contains_name(e.body, name) or _contains_name(e.orelse, name)
+    if isinstance(e, ast.BoolOp):
+        return any(_contains_name(x, name) for x in e.values)
+    if isinstance(e, ast.Starred):
+        return False
+    return False
+
+
+def _default_escapes(fi, name):
+    out = []
+    for x in own_nodes(fi.node):
+        if isinstance(x, ast.Return) and x.value is not None and \
+                _contains_name(x.value, name):
+            out.append(x)
+        elif isinstance(x, ast.Assign) and _contains_name(x.value, name) \
+                and any(isinstance(t, (ast.Attribute, ast.Subscript))
+                        for t in x.targets):
+            out.append(x)
+        elif isinstance(x, ast.Call) and isinstance(x.func, ast.Attribute) \
+                and x.func.attr in ('append', 'insert', 'setdefault',
+                                    'extend') and x.args and \
+                _contains_name(x.args[-1], name):
+            out.append(x)
+    return out
 
 
 def _truth3(e, env):
@@ -413,8 +465,19 @@ def rule_munge(model):
     return r
 
 
+def rule_one_shot(model):
+    r = RuleResult('C17.R8', 'no one-shot iterator (generator expression, '
+                   'reversed/map/filter/zip/iter/enumerate/itertools '
+                   'result, generator) is stored in an attribute or a '
+                   'container entry: what is consulted again must be '
+                   're-iterable')
+    from .. import oneshot
+    return oneshot.fill_rule(r, model, lambda fi, kind: True, 150,
+                             'an attribute / container entry')
+
+
 RULES = [rule_hidden_state, rule_recook, rule_getstate, rule_file,
-         rule_caller_data, rule_defaults, rule_munge]
+         rule_caller_data, rule_defaults, rule_munge, rule_one_shot]
 EXPLANATION = (
     'Enumeration of attribute / item stores and container mutations in '
     'render-reachable code whose receiver is a shared object; '
